@@ -16,10 +16,10 @@ U_RED = {"A": [1, 1.0, True, "1", [1, 2], MISSING], "B": [1, "x", MISSING], "X":
 U_COLLIDE = [1, 1.0, True, "1", MISSING, -2, -2.0]
 
 ARGS = {
-    None: [1, 1.0, True, 2, 2.5, None, "1", "ab", [1, 2], [1.0, 2], 0, False, -2, -2.0],
-    "$eq": [1, 1.0, True, 2, 2.5, None, "1", "ab", [1, 2], [1.0, 2], 0, False, -2, -2.0],
+    None: [1, 1.0, True, 2, 2.5, None, "1", "ab", [1, 2], [1.0, 2], 0, False, -2, -2.0, 9007199254740993],
+    "$eq": [1, 1.0, True, 2, 2.5, None, "1", "ab", [1, 2], [1.0, 2], 0, False, -2, -2.0, 9007199254740993],
     "$ne": [1, 1.0, True, 2, 2.5, None, "1", "ab", [1, 2], [1.0, 2], 0, False, -2, -2.0],
-    "$gt": [1, 1.0, 2.5, True, "1", "ab", [1, 2], None, -2],
+    "$gt": [1, 1.0, 2.5, True, "1", "ab", [1, 2], None, -2, 9007199254740992],
     "$gte": [1, 1.0, 2.5, True, "1", "ab", [1, 2], None, -2],
     "$lt": [1, 1.0, 2.5, True, "1", "ab", [1, 2], None, -2],
     "$lte": [1, 1.0, 2.5, True, "1", "ab", [1, 2], None, -2],
